@@ -22,6 +22,14 @@ func (m *Manager) SyncLoop(ctx context.Context, errCh chan<- error) {
 	metricsTicker := time.NewTicker(30 * time.Second)
 	defer metricsTicker.Stop()
 
+	// Blocks whose header and data were cached before a restart (the caches are saved on a clean
+	// stop) are applied right away: every event that could trigger them has already been seen
+	// and would be dropped, so nothing else would apply them until a new block arrives.
+	if err := m.trySyncNextBlock(ctx, m.daHeight.Load()); err != nil {
+		errCh <- fmt.Errorf("failed to sync next block: %w", err)
+		return
+	}
+
 	for {
 		select {
 		case <-daTicker.C:
